@@ -37,6 +37,35 @@ def kernel_formula(chk, rel, name, perturbed):
            facts={"code": str(got)[:300], "spec": str(spec)})
 
 
+def equilibrium_same_quadrature(chk):
+    """the perturbed density is sum_l w_l (f - f_eq): the equilibrium goes through the same weights as f, so that the perturbed
+    density of the equilibrium itself is exactly zero and the map stays the integral of one interpolant"""
+    fn = chk.func(U.POISSON, "DensityFinder.getPerturbedRho")
+    init = chk.func(U.POISSON, "DensityFinder.__init__")
+    k = [c for c in ast.walk(fn) if isinstance(c, ast.Call) and isinstance(c.func, ast.Name) and c.func.id == "get_perturbed_rho"]
+    ok, bad = None, None
+    if len(k) == 1:
+        texts = [src(a) for a in k[0].args] + [src(kw.value) for kw in k[0].keywords]
+        ok = any("self._quad_coeffs" in t for t in texts) and any("self._fEq" in t for t in texts)
+    else:
+        # the equilibrium is subtracted some other way: whatever is subtracted must have been produced with the quadrature weights
+        subs = [n for n in ast.walk(fn) if (isinstance(n, ast.AugAssign) and isinstance(n.op, ast.Sub)) or
+                (isinstance(n, ast.BinOp) and isinstance(n.op, ast.Sub))]
+        for sb in subs:
+            rhs = sb.value if isinstance(sb, ast.AugAssign) else sb.right
+            attrs = [a for a in ast.walk(rhs) if isinstance(a, ast.Attribute) and isinstance(a.value, ast.Name) and a.value.id == "self"]
+            for a in attrs:
+                defs = [n for n in ast.walk(init) if isinstance(n, ast.Assign) and src(n.targets[0]) == src(a)]
+                if defs and not any("_quad_coeffs" in src(d.value) or "quad" in src(d.value) for d in defs):
+                    bad = (f"`{src(sb)[:70]}` subtracts `{src(a)}`, which the constructor computes as `{src(defs[0].value)[:80]}` without the "
+                           "quadrature weights: the velocity integral of the equilibrium taken another way (closed form, other rule) is "
+                           "not the integral of the interpolated equilibrium, so the perturbed density of the equilibrium is not zero "
+                           "and perturbations in the spline space are not integrated exactly")
+    chk.pat("E3-equilibrium-same-quadrature", k[0] if k else fn, "get_perturbed_rho(rho, f_eq rows, f, weights)", bool(ok),
+            "f and the tabulated equilibrium are combined with the same quadrature weights", bad, file=U.POISSON,
+            func="DensityFinder.getPerturbedRho")
+
+
 def run(chk):
     chk.explanation = (
         "Engine F: the density kernels compute rho[i,j,k] = sum_l w_l (f[i,j,k,l] - f_eq[i,l]) (resp. without f_eq) and "
@@ -64,6 +93,7 @@ def run(chk):
     except Undecided as e:
         chk.ob("F3-feq-table", fv, "feq_vector", None, f"outside the extractable fragment: {e}", file=U.INITF, func="feq_vector")
     init = chk.func(U.POISSON, "DensityFinder.__init__")
+    equilibrium_same_quadrature(chk)
     calls = [c for c in ast.walk(init) if isinstance(c, ast.Call) and isinstance(c.func, ast.Attribute) and c.func.attr == "feq_vector"]
     if len(calls) != 1:
         raise AnalysisError("C16: feq_vector call not found in DensityFinder.__init__")
@@ -104,10 +134,24 @@ def run(chk):
     # weights: interpolator of the spline handed to the constructor, which the driver takes along v (= last axis)
     qc = [n for n in ast.walk(init) if isinstance(n, ast.Assign) and src(n.targets[0]) == "self._quad_coeffs"]
     okq = len(qc) == 1 and src(qc[0].value).replace(" ", "").replace("\n", "") == "SplineInterpolator1D(bspline).get_quadrature_coefficients()"
-    chk.ob("E3-weights-source", qc[0] if qc else init, "self._quad_coeffs", okq,
-           "weights are the quadrature coefficients of the interpolator built on the constructor's spline" if okq else
-           "weights are not obtained from SplineInterpolator1D(bspline).get_quadrature_coefficients()", file=U.POISSON,
-           func="DensityFinder.__init__")
+    badq = None
+    if not okq and len(qc) == 1:
+        v_ = qc[0].value
+        # resolve a local interpolator: interp = SplineInterpolator1D(<x>); self._quad_coeffs = interp.get_quadrature_coefficients()
+        if isinstance(v_, ast.Call) and isinstance(v_.func, ast.Attribute) and v_.func.attr == "get_quadrature_coefficients":
+            recv = v_.func.value
+            if isinstance(recv, ast.Name):
+                d_ = [n for n in ast.walk(init) if isinstance(n, ast.Assign) and src(n.targets[0]) == recv.id]
+                recv = d_[0].value if len(d_) == 1 else recv
+            if isinstance(recv, ast.Call) and src(recv.func) == "SplineInterpolator1D" and (recv.args or recv.keywords):
+                a0 = recv.args[0] if recv.args else recv.keywords[0].value
+                if src(a0) == "bspline":
+                    okq = True
+                else:
+                    badq = f"the weights come from an interpolator built on `{src(a0)}`, not on the constructor's v spline `bspline`"
+    chk.pat("E3-weights-source", qc[0] if qc else init, "self._quad_coeffs", okq,
+            "weights are the quadrature coefficients of the interpolator built on the constructor's spline", badq, file=U.POISSON,
+            func="DensityFinder.__init__")
     O = orders(chk)
     amb = I.ambient_from_asserts(chk.func(U.POISSON, "DensityFinder.getPerturbedRho"))
     last = amb.get("grid", (None,))[-1]
